@@ -304,6 +304,17 @@ def e2e(ctx, objdir):
                 opts += ["-T", "_f%d$@%s" % (k, "filter" if inc else "notrace")]
             else:
                 opts += ["-F" if inc else "-N", "_f%d$" % k]
+        # depth= trigger and caller filter on further functions (spelled -T f@depth=N / -C f / -T f@caller)
+        others = [k for k in present if k not in trig]
+        if others and rng.random() < 0.4:
+            k = rng.choice(others)
+            trig[k] = {"depth": rng.choice([1, 2, 3])}
+            opts += ["-T", "_f%d$@depth=%d" % (k, trig[k]["depth"])]
+            others.remove(k)
+        if others and rng.random() < 0.3:
+            k = rng.choice(others)
+            trig[k] = {"caller": True}
+            opts += rng.choice([["-C", "_f%d$" % k], ["-T", "_f%d$@caller" % k]])
         cfg = {"shape": "cyg" if method == "cyg" else "pg", "trig": trig}
         if rng.random() < 0.5:
             cfg["depth"] = rng.choice([1, 2, 3, 4])
